@@ -34,6 +34,7 @@ def known(rep):
 
 def run(rep, tier, seed):
     flow.run_gen(rep, {'Grad'}, seed, 6 if tier == 'quick' else 40)
+    flow.run_selftest(rep, seed, 30 if tier == 'quick' else 300)
     flow.run_proofs(rep, PROOFS, extra_scan=['Tsv.Gen.Grad'])
     rng = random.Random(seed)
     fails, st = core.safe(osde.c08_search, rng, 60 if tier == 'quick' else 1200, 0.25)
